@@ -241,7 +241,16 @@ def _names_env():
         import octave_mcp.schemas.loader as ld
         pk = [os.path.realpath(str(x)) for x in (os.path.join(os.path.dirname(ld.__file__), "builtin"),
                                                   os.path.join(os.path.dirname(os.path.dirname(ld.__file__)), "resources", "specs", "schemas"))]
-        _names.update(dir=d, sd=os.path.realpath(sd), pk=pk)
+        # a second working directory: a project without schema directory of its own, two levels below a directory that is NOT the
+        # project and has a specs/schemas with the same file names: only the packaged directories may answer from there
+        sub = os.path.join(d, "elsewhere", "proj", "sub")
+        os.makedirs(sub)
+        up = os.path.join(d, "elsewhere", "specs", "schemas")
+        os.makedirs(up)
+        for n in ("a.oct.md", "0.oct.md", "meta.oct.md"):
+            with open(os.path.join(up, n), "w", encoding="utf-8") as f:
+                f.write(schema)
+        _names.update(dir=d, sd=os.path.realpath(sd), pk=pk, sub=sub)
     return _names
 
 
@@ -274,12 +283,15 @@ def replay_name(item):
         return any(os.path.dirname(rp) == a for a in allowed)
 
     obs = []
-    for route in ("load_schema_by_name", "octave_validate"):
+    for route in ("load_schema_by_name", "octave_validate", "load_schema_by_name@subdir", "octave_validate@subdir"):
+        if route.endswith("@subdir"):
+            os.chdir(E["sub"])
+            allowed = E["pk"]
         del _opened[:]
         _hook_on[0] = True
         loaded = False
         try:
-            if route == "load_schema_by_name":
+            if route.startswith("load_schema_by_name"):
                 loaded = load_schema_by_name(name) is not None
             else:
                 r = run_async(_common.tool("validate").execute(content=DOC, schema=name))
